@@ -54,7 +54,11 @@ OwnOf(u, withid) == IF withid = 1 THEN u ELSE RootOf(u)
 
 \* ---------------------------------------------------------------- (2) model of the code
 \* cleanName: invalid UTF-8 -> U+FFFD, trim to 255 bytes (a long run stays a run, never "." or ".."), "/" -> "_"
-CleanSym(x) == IF x = "U" THEN "F" ELSE IF x = "S" THEN "X" ELSE x
+\* Symbols that exist only to make two DIFFERENT raw components clean to the SAME component (family W / MC_PathsDup):
+\*   X  a literal underscore (what "/" is replaced by)      F  a literal U+FFFD (what an invalid byte is replaced by)
+\*   V  an invalid UTF-8 byte different from U               Q  a run of > 255 letters that differs from R only in the
+\*   K  the BitComet padding-file name prefix                   part that trimming to 255 bytes (extension kept) cuts out
+CleanSym(x) == IF x \in {"U", "V"} THEN "F" ELSE IF x = "S" THEN "X" ELSE IF x = "Q" THEN "R" ELSE x
 Clean(c) == [i \in 1 .. Len(c) |-> CleanSym(c[i])]
 
 \* strings.TrimSpace
@@ -111,6 +115,29 @@ Accepts(t, variant) ==
     \* duplicate detection on the joined cleaned paths
     /\ LET jn == Joined(t) IN \A i, j \in 1 .. Len(jn) : i # j => jn[i] # jn[j]
 
+\* PADDING FILES AND DUPLICATE DETECTION.  A file is MARKED as padding by attr "p" (attr[i] = 1) or by the BitComet
+\* convention (last path component begins with K).  Marked files are hidden (never opened, exempt from the duplicate
+\* check) only when the metainfo is parsed with the pad flag (metainfo.New, resume version 3); resume records of
+\* version 1 and 2 are parsed with pad = FALSE (torrent/session_load.go) and there EVERY file is a real file on disk.
+\* attr = <<>> stands for "no file carries the attribute".
+HasAttr(attr, i) == i <= Len(attr) /\ attr[i] = 1
+BCName(p) == p # <<>> /\ p[Len(p)] # <<>> /\ p[Len(p)][1] = "K"
+Marked(t, attr, i) == HasAttr(attr, i) \/ BCName(t.files[i])
+Hidden(t, attr, padmode, i) == padmode /\ Marked(t, attr, i)
+\* the files that reach Storage.Open
+Real(t, attr, padmode) == {i \in 1 .. Len(t.files) : ~Hidden(t, attr, padmode, i)}
+\* the raw relative path of file i (what path.Join of the UNcleaned components denotes)
+RawJoined(t) == [i \in 1 .. Len(t.files) |-> JoinRel(<<EffName(t)>> \o t.files[i])]
+\* NewInfo with padding: variants of the duplicate check
+\*   "cur" / "fix"  on the joined CLEANED paths, among the files that are real in this mode        (the code)
+\*   "rawdup"       on the joined RAW components (two raw paths that clean to one path pass)        (design alternative)
+\*   "padskip"      marked files are exempt whatever the mode (real files pass unchecked, pad off)  (design alternative)
+AcceptsP(t, attr, padmode, variant) ==
+    /\ \A i \in 1 .. Len(t.files) : \A j \in 1 .. Len(t.files[i]) : Trim(t.files[i][j]) # <<"D", "D">>
+    /\ variant \in {"fix", "rawdup", "padskip"} => Kind(Trim(Clean(EffName(t)))) \notin {"d", "dd"}
+    /\ LET jn  == IF variant = "rawdup" THEN RawJoined(t) ELSE Joined(t)
+           chk == IF variant = "padskip" THEN {i \in 1 .. Len(t.files) : ~Marked(t, attr, i)} ELSE Real(t, attr, padmode)
+       IN \A i, j \in chk : i # j => jn[i] # jn[j]
 \* in the model a symbolic component is its own identity (the letters are specific characters)
 AsPath(comps) == [i \in 1 .. Len(comps) |-> [s |-> comps[i], id |-> comps[i]]]
 UM == << <<"#r">>, <<"#d">>, <<"#i">> >>
@@ -120,6 +147,11 @@ ModelDistinct(t, withid) ==
     LET on == OpenNames(t)
         rs == [i \in 1 .. Len(on) |-> Res(OwnOf(UM, withid), AsPath(on[i]))]
     IN \A i, j \in 1 .. Len(on) : i # j => rs[i] # rs[j]
+\* @obligation C07.distinct  two different files that reach the disk never resolve to the same path
+ModelDistinctP(t, attr, padmode, withid) ==
+    LET on == OpenNames(t)
+        rs == [i \in 1 .. Len(on) |-> Res(OwnOf(UM, withid), AsPath(on[i]))]
+    IN \A i, j \in Real(t, attr, padmode) : i # j => rs[i] # rs[j]
 \* Session.stopAndRemoveData: with the id level the own directory; without it DataDir joined with the name
 \* ("cur": the RAW name, "fix": the cleaned name)
 RemoveTarget(t, variant) == IF variant = "cur" THEN AsPath(SplitS(<<>>, EffName(t))) ELSE AsPath(<<Clean(EffName(t))>>)
